@@ -55,16 +55,16 @@ type Ent struct {
 	V V
 }
 
-func MkNull() V               { return V{K: Null} }
-func MkBool(b bool) V         { return V{K: Bool, B: b} }
-func MkInt(i int64) V         { return V{K: Int, I: i} }
-func MkFloat(f float64) V     { return V{K: Float, F: f} }
-func MkString(s string) V     { return V{K: String, S: s} }
-func MkBytes(b []byte) V      { return V{K: Bytes, S: string(b)} }
+func MkNull() V                { return V{K: Null} }
+func MkBool(b bool) V          { return V{K: Bool, B: b} }
+func MkInt(i int64) V          { return V{K: Int, I: i} }
+func MkFloat(f float64) V      { return V{K: Float, F: f} }
+func MkString(s string) V      { return V{K: String, S: s} }
+func MkBytes(b []byte) V       { return V{K: Bytes, S: string(b)} }
 func MkLink(cidBytes string) V { return V{K: Link, S: cidBytes} }
-func MkList(items ...V) V     { return V{K: List, Items: items} }
-func MkMap(ents ...Ent) V     { return V{K: Map, Ents: ents} }
-func MkAbsent() V             { return V{K: Absent} }
+func MkList(items ...V) V      { return V{K: List, Items: items} }
+func MkMap(ents ...Ent) V      { return V{K: Map, Ents: ents} }
+func MkAbsent() V              { return V{K: Absent} }
 
 // MkUint normalises: values that fit int64 become Int.
 func MkUint(u uint64) V {
@@ -434,14 +434,14 @@ func (v V) Short(n int) string {
 // JSON (replay files and evidence samples); lossless.
 
 type jv struct {
-	T string   `json:"t"`
-	B *bool    `json:"b,omitempty"`
-	I *int64   `json:"i,omitempty"`
-	U *uint64  `json:"u,omitempty"`
-	F *string  `json:"f,omitempty"` // hex of the float64 bits, followed by "~" and a decimal rendering
-	S *string  `json:"s,omitempty"` // Txt form
-	L []V      `json:"l,omitempty"`
-	M []jent   `json:"m,omitempty"`
+	T string  `json:"t"`
+	B *bool   `json:"b,omitempty"`
+	I *int64  `json:"i,omitempty"`
+	U *uint64 `json:"u,omitempty"`
+	F *string `json:"f,omitempty"` // hex of the float64 bits, followed by "~" and a decimal rendering
+	S *string `json:"s,omitempty"` // Txt form
+	L []V     `json:"l,omitempty"`
+	M []jent  `json:"m,omitempty"`
 }
 
 type jent struct {
